@@ -11,7 +11,7 @@ import (
 )
 
 var c07Floor = []string{"cte.1", "cte.chain2", "cte.chain3", "cte.twice.join", "cte.twice.union", "cte.twice.insub", "cte.selector", "derived", "derived.where",
-	"subq.nested", "subq.root", "subq.in", "subq.agg", "exists", "exists.outer", "subq.root-correlated", "derived.join", "subq.with", "agg.stages", "inner.agg", "inner.order", "inner.filter", "cte.mixedcase", "exists.outer.marker", "exists.sparse", "subq.in.null-left", "exists.shadow", "exists.outer.marker-is"}
+	"subq.nested", "subq.root", "subq.in", "subq.agg", "exists", "exists.outer", "subq.root-correlated", "derived.join", "subq.with", "agg.stages", "inner.agg", "inner.order", "inner.filter", "cte.mixedcase", "exists.outer.marker", "exists.sparse", "subq.in.null-left", "exists.shadow", "exists.outer.marker-is", "cte.named-like-its-table"}
 
 func init() {
 	fw.Register(&fw.Prop{
@@ -274,8 +274,13 @@ func c07Run(c *fw.Case) {
 		from := "t1"
 		var stagedSQL []string
 		// the name of an intermediate result does not matter: lower-case, mixed-case, upper-case
-		nameFmt := gen.Pick(c.R, []string{"c%d", "c%d", "Big%d", "topC%d", "CT%d"})
-		if nameFmt != "c%d" {
+		nameFmt := gen.Pick(c.R, []string{"c%d", "c%d", "Big%d", "topC%d", "CT%d", "t%d", "t%d"})
+		switch nameFmt {
+		case "c%d":
+		case "t%d":
+			// the first CTE is named like the table it reads (WITH t1 AS (SELECT ... FROM t1 ...))
+			feats = append(feats, "cte.named-like-its-table")
+		default:
 			feats = append(feats, "cte.mixedcase")
 		}
 		for i := 1; i <= n; i++ {
